@@ -25,6 +25,16 @@ Theorem C10_convert_table_is_model : rows_are_model generated_rows = true.
 Proof. exact generated_is_model. Qed.
 Print Assumptions C10_convert_table_is_model.
 
+(* check_hyperparameter: what it returns is a valid hyperparameter with exactly the declared meaning (the reading spec_of_decl of the
+   shorthand is written independently of check); it raises exactly on declarations without a reading *)
+Theorem C10_check_meaning : forall d, decl_wf d ->
+  match check d with
+  | Some h => hp_valid h = true /\ spec_of_decl d = spec_of_hp h
+  | None => spec_of_decl d = None
+  end.
+Proof. exact check_meaning. Qed.
+Print Assumptions C10_check_meaning.
+
 (* every declaration with a reading (tuple int / float +- log-uniform, list categorical / ordinal, constant, ConfigSpace
    object) becomes ONE dimension carrying the declared name, bounds, log flag and choices - for every table whose rows pass
    row_ok, every surrogate family, every name *)
@@ -133,7 +143,7 @@ Print Assumptions C10_support_int_log.
 (* "normalize" transform (GP / Mondrian-forest surrogates).  REPAIRED sampler (fixes/F25): the integer itself is drawn and sent
    through transform / inverse_transform - the identity on low .. high, hence uniform by C10_pmf_uniform *)
 Theorem C10_normalized_repaired_uniform : forall lo hi k, lo < hi -> 0 <= k <= hi - lo -> q_int_normalized_fixed lo hi k = q_int_uniform lo hi k.
-Proof. intros lo hi k H1 H2. rewrite (normalized_fixed_id lo hi k H1 H2). unfold q_int_uniform. symmetry. apply clipZ_id. auto with zarith. Qed.
+Proof. exact normalized_fixed_uniform. Qed.
 Print Assumptions C10_normalized_repaired_uniform.
 
 (* the sampler of the pinned code: support still low .. high ... *)
